@@ -50,11 +50,23 @@
    literal at run time.  There the model FOLLOWS the oracle; in particular
    int64(f) for |f| >= 2^63 is whatever the Go compiler's conversion yields on
    the platform of the run (the language leaves it implementation-defined), and
-   a literal whose integer part has more than 800 digits is left to the oracle
-   altogether, because strconv.ParseFloat is NOT correctly rounded there (its
-   800-digit decimal buffer drops the excess integer digits without adjusting
-   the decimal point: "17000036" ++ 900 zeros ++ "1e-899" is read as
-   1.7000036e-100; go1.23.5).
+   two kinds of literal are left to the oracle ALTOGETHER, because there
+   strconv.ParseFloat does not return the correctly rounded value of the
+   literal (go1.25.11, the toolchain /repo pins; the first also reproduced on
+   1.23.5 and 1.26.8):
+     (1) an integer part of more than 800 digits: the 800-digit decimal buffer
+         drops the excess integer digits without adjusting the decimal point
+         when the fast paths do not apply ("17000036" ++ 900 zeros ++ "1e-899"
+         is read as 1.7000036e-100);
+     (2) a non-zero mantissa with an exponent of magnitude >= 10000: the
+         exponent is accumulated with  if e < 10000 { e = e*10 + d } , so its
+         digits from the point where it reaches 10000 on are DROPPED ("1e100000"
+         is read as 1e10000, and  "0." ++ 99999 zeros ++ "1e100000", whose value
+         is 1, is read as 0 without error).  A zero mantissa is read as 0
+         whatever the exponent, so 0e999999999999 stays decided.
+   The exact decisions of the model therefore hold within a DIGIT BUDGET:
+   at most 800 integer digits (int_digits_ok) and, unless the mantissa is zero,
+   an exponent of magnitude below 10000 (exp_digits_ok).
 
    json_print_text is a printer for the round-trip theorem (compact, names in
    list order; it is NOT protojson's output format, which is deliberately
@@ -480,8 +492,13 @@ Definition lit_sign (l : numlit) (v : N) : Z := if nl_neg l then (- Z.of_N v)%Z 
 Definition f64_over : N := 2 ^ 1024 - 2 ^ 970.
 (* the decimal buffer of strconv (800 digits) is exact for the integer part up to here *)
 Definition max_int_digits : nat := 800.
+(* strconv reads the exponent with  if e < 10000 { e = e*10 + digit } : below
+   this magnitude no digit of the exponent is dropped *)
+Definition max_exp10 : Z := 10000.
 
-(* Two guards keep the powers of ten small: a non-zero literal with exponent
+(* Outside the digit budget (more than 800 integer digits; exponent magnitude
+   >= 10000 on a non-zero mantissa) the literal goes to the oracle.  Inside it,
+   two guards keep the powers of ten small: a non-zero literal with exponent
    above 400 is >= 10^401 > f64_over; one whose exponent is below
    -(number of digits + 400) is < 10^-400 < 2^-1075.  Between them 10^|e| has
    at most (number of digits + 401) digits. *)
@@ -490,6 +507,7 @@ Definition lit_class (l : numlit) : numclass :=
   else
     let m := lit_mant l in
     if m =? 0 then NCInt 0
+    else if (max_exp10 <=? Z.abs (exp_val (nl_exp l)))%Z then NCOracle
     else
       let e := lit_exp10 l in
       if (400 <? e)%Z then NCOverflow
@@ -513,6 +531,90 @@ Definition num_x (num : numlit -> option (Z * bytes)) (l : numlit) : option (Z *
 (* structpb.Struct.UnmarshalJSON as property C09 models it *)
 Definition json_parse_x (num : numlit -> option (Z * bytes)) : bytes -> option fields :=
   json_parse_text (num_x num).
+
+(* ================= protojson's number TOKEN on the INTEGER path ================= *)
+(* internal/encoding/json/decode_number.go parseNumber consumes, after the
+   integer and fraction parts, 'e' / 'E' (when at least one more byte of input
+   follows), an optional sign and ZERO or more digits, and then only tests that a
+   delimiter (or the end) follows.  So "1e" followed by a delimiter is a Number
+   token.  What becomes of it depends on the consumer:
+     Token.Float (structpb, property C09): strconv.ParseFloat("1e") fails - the
+       text is refused, as lex_exp above has it;
+     Token.Uint / Token.Int (uint32 and enum fields of a schema: the keyset JSON
+       reader, properties C12 / C14): parseNumberParts("1e") does not read the
+       exponent part (its own test is len(s) >= 2 on the TOKEN) and returns the
+       parts of "1": the value is 1.  With a sign ("1e+", "1e-") parseNumberParts
+       fails, so only the bare marker matters.
+   lex_dangling reads such a token and returns the literal WITHOUT exponent (what
+   parseNumberParts makes of it) and the text from the delimiter on; the marker
+   must be followed by a byte (a delimiter).  lex_one_pj is lex_one with that
+   fallback, json_parse_text_pj the text parser on top of it.  Used by
+   model/JsonKeyset.v only; for which texts it differs from json_parse_text:
+   proofs/JsonPjProofs.v. *)
+Definition lex_dangling_u (neg : bool) (s1 : bytes) : option (numlit * bytes) :=
+  match lex_int s1 with
+  | None => None
+  | Some (ip, s2) =>
+    let (fr, s3) := lex_frac s2 in
+    match s3 with
+    | e :: c :: t =>
+      if ((e =? 101) || (e =? 69)) && negb (is_not_delim c) then Some (mkLit neg ip fr None, c :: t) else None
+    | _ => None
+    end
+  end.
+Definition lex_dangling (s : bytes) : option (numlit * bytes) :=
+  match s with
+  | c :: t => if c =? 45 then lex_dangling_u true t else lex_dangling_u false s
+  | [] => None
+  end.
+(* the first Number token of a text as Token.Uint / Token.Int see it *)
+Definition lex_number_pj (s : bytes) : option (numlit * bytes) :=
+  match lex_number s with
+  | Some r => Some r
+  | None => lex_dangling s
+  end.
+
+Section ParsePj.
+  Variable num_of_literal : numlit -> option (Z * bytes).
+
+  Definition lex_one_pj (c : N) (t : bytes) : option (token * bytes) :=
+    match lex_one num_of_literal c t with
+    | Some x => Some x
+    | None =>
+      match lex_dangling (c :: t) with
+      | Some (l, r) => match num_value num_of_literal l with
+                       | Some (z, x) => Some (TNum z x, r)
+                       | None => None
+                       end
+      | None => None
+      end
+    end.
+
+  Fixpoint lex_f_pj (fuel : nat) (s : bytes) : option (list token) :=
+    match fuel with
+    | O => None
+    | S f =>
+      match skip_ws s with
+      | [] => Some []
+      | c :: t =>
+        match lex_one_pj c t with
+        | None => None
+        | Some (tok, rest) =>
+          match lex_f_pj f rest with
+          | Some ts => Some (tok :: ts)
+          | None => None
+          end
+        end
+      end
+    end.
+  Definition lex_pj (s : bytes) : option (list token) := lex_f_pj (S (length s)) s.
+
+  Definition json_parse_text_pj (s : bytes) : option fields :=
+    match lex_pj s with
+    | Some ts => parse_tokens ts
+    | None => None
+    end.
+End ParsePj.
 
 (* ================= the value side: tokens of a value, its shape ================= *)
 Fixpoint join_comma (ls : list (list token)) : list token :=
